@@ -24,6 +24,7 @@ func checkC15(c *Ctx) {
 	c15Determinism(c)
 	c15RecoverReported(c)
 	c15Known(c)
+	c15DiagsKept(c)
 	c.NotCovered("index-out-of-range / nil dereference / failed type assertion on arbitrary damaged input (value reasoning)")
 	c.NotCovered("in-bounds source ranges of diagnostics")
 	c.NotCovered("progress of byte-level scanners (Ragel machines, json scanner): arithmetic facts")
